@@ -37,6 +37,13 @@ pub fn run(ctx: &Ctx) -> CheckResult {
             spaces.push(Space { cfg: Cfg::p1(k, n), alphabet: spike_ops.clone(), depth: d - 1, label: "S_pos+spike" });
         }
     }
+    // EMA periods of 2^32 and beyond inside RSI / PPO / SlowStochastic
+    for &n in &[(1usize << 32) - 1, 1usize << 32, (1usize << 32) + 2, usize::MAX] {
+        spaces.push(Space { cfg: Cfg::p1(Kind::Rsi, n), alphabet: pos.clone(), depth: d - 3, label: "huge period" });
+        spaces.push(Space { cfg: Cfg::p3(Kind::Ppo, 12, n, 9), alphabet: pos.clone(), depth: d - 3, label: "huge period" });
+        spaces.push(Space { cfg: Cfg::p3(Kind::Ppo, n, 26, n), alphabet: pos.clone(), depth: d - 3, label: "huge period" });
+        spaces.push(Space { cfg: Cfg::p2(Kind::SlowStoch, 5, n), alphabet: pos.clone(), depth: d - 3, label: "huge period" });
+    }
     // prices near the top of the f64 range (the formulas are scale-free; intermediate products are not)
     for n in 1..=3usize {
         for k in [Kind::Rsi, Kind::FastStoch, Kind::Roc] {
